@@ -167,7 +167,8 @@ func hostilePayload(r *hx.Rand, kind int) []byte {
 func classify(class, detail string, _ map[string]any) string {
 	switch class {
 	case "retained-bytes":
-		// the only table without a byte cap is d.fragments (F5)
+		// d.fragments was the only table without a byte cap (finding F5, fixed by /repo b3e0ab0): the class
+		// stays, so a regression is reported as a violation
 		if detail == "" || detail == "endless-middle-fragments" {
 			return "mpeg1video-unbounded-fragments"
 		}
@@ -204,13 +205,67 @@ var Format = &codec.Format{
 	ModelRetained:  true,
 }
 
+// probeFragmentCap: regression + correspondence at the exact threshold of the F5 repair: a fragmented
+// slice may grow to maxFrameSize bytes, one byte more is an error that drops the fragments.
+func probeFragmentCap(ctx *hx.Ctx) {
+	mk := func(seq uint16, flags byte, n int) *rtp.Packet {
+		pl := make([]byte, 4+n)
+		pl[2] = flags
+		for i := 4; i < len(pl); i++ {
+			pl[i] = byte(i)
+		}
+		return &rtp.Packet{Header: rtp.Header{Version: 2, SequenceNumber: seq}, Payload: pl}
+	}
+	var pkts []*rtp.Packet
+	seq := uint16(65530)
+	pkts = append(pkts, mk(seq, 0x10, 48576)) // B
+	for i := 0; i < 16; i++ {
+		seq++
+		pkts = append(pkts, mk(seq, 0, 62500)) // 48576 + 16*62500 = 1 MiB exactly: still accepted
+	}
+	seq++
+	pkts = append(pkts, mk(seq, 0, 1)) // one byte too many
+	seq++
+	pkts = append(pkts, mk(seq, 0x08, 10)) // E: nothing to complete any more
+	d := &rtpmpeg1video.Decoder{}
+	d.Init() //nolint:errcheck
+	var c, o hx.L
+	c.N(2).I(0).I(len(pkts))
+	maxRetained := 0
+	res := make([]int, len(pkts))
+	for i, p := range pkts {
+		codec.PutPacket(&c, p)
+		q := *p
+		q.Payload = append([]byte(nil), p.Payload...)
+		_, r := dec{d}.Decode(&q)
+		res[i] = r
+		o.I(r)
+		if b, _ := codec.Retained(d); b > maxRetained {
+			maxRetained = b
+		}
+	}
+	b, sl := codec.Retained(d)
+	o.I(b).I(sl)
+	ctx.Corr(c.String(), o.String())
+	ctx.Eval()
+	ctx.Kind("rtpmpeg1video probe fragment cap")
+	if maxRetained > (1<<20)+62504 || res[17] != codec.ResErr || res[16] != codec.ResMore {
+		ctx.Failf(-1, "mpeg1video-unbounded-fragments", "B fragment of 48576 bytes, 16 middle fragments of 62500 bytes (1 MiB), one more byte, E fragment",
+			"rtpmpeg1video: fragments are not cut off at maxFrameSize: results %v, %d bytes retained at most", res, maxRetained)
+	}
+}
+
 func main() {
 	ctx := hx.Start("mpeg1video")
 	defer ctx.Finish()
+	if ctx.Prop == "C08" {
+		probeFragmentCap(ctx)
+	}
 	Format.Run(ctx)
 	if ctx.Prop == "C08" {
 		const bound = (1 << 20) + 2000
-		// F5: a start fragment, then middle fragments with consecutive sequence numbers: no size check
+		// F5 (fixed by /repo b3e0ab0, kept as a regression case): a start fragment, then middle fragments with
+		// consecutive sequence numbers must be cut off at maxFrameSize
 		Format.EndlessFragments(ctx, "endless-middle-fragments", ctx.Budget(2300, 30000), func(i int, seq uint16) *rtp.Packet {
 			pl := make([]byte, 1004)
 			if i == 0 {
